@@ -57,10 +57,20 @@ def gen_settings(r, isa=None):
 def gen_text(r, isa, p_bad=0.25):
     if isa == "toy":
         if r.random() < p_bad:
-            return r.choice(T.TOY_BAD) if r.random() < 0.4 else T.mutate(r, T.gen_toy(r), T.TOY_TOK)
+            k = r.random()
+            if k < 0.3:
+                return r.choice(T.TOY_BAD)
+            if k < 0.55:
+                return T.mutate_literal(r, T.gen_toy(r))
+            return T.mutate(r, T.gen_toy(r), T.TOY_TOK)
         return T.gen_toy(r)
     if r.random() < p_bad:
-        return r.choice(T.RV_BAD) if r.random() < 0.4 else T.mutate(r, T.gen_riscv(r), T.TOK)
+        k = r.random()
+        if k < 0.3:
+            return r.choice(T.RV_BAD)
+        if k < 0.6:
+            return T.mutate_literal(r, T.gen_riscv(r))
+        return T.mutate(r, T.gen_riscv(r), T.TOK)
     return T.gen_riscv(r)
 
 
